@@ -340,6 +340,74 @@ def run_twin_with_options(rec, kind, extra):
     return diffs
 
 
+def run_linker_twin(rec, kind):
+    """BaseLinker.solve() (its own copy of the period loop, linkers.py:225-347) on a linker that wraps the scripted model:
+    the periods, the returned triple and the early errors are the specification's; under faults the linker's per-period
+    policy is C08's subject, so there only the equality with the explicit loop of BaseLinker.solve_t is demanded."""
+    cfg = rec['cfg']
+    L = cfg['L']
+    if L == 0:
+        return []
+    diffs = []
+
+    def mk():
+        m, span = build(cfg, kind)
+        return fsic.BaseLinker({'A': m}), m, span
+    try:
+        lk, sub, span = mk()
+    except Exception as e:
+        return [f'linker-construction-raised-{type(e).__name__}']
+    s_lab, ok1 = label_of(kind, span, L, cfg['start'])
+    e_lab, ok2 = label_of(kind, span, L, cfg['end'])
+    if not (ok1 and ok2):
+        return []
+    kw = opts_of(cfg)
+    if s_lab is not None:
+        kw['start'] = s_lab
+    if e_lab is not None:
+        kw['end'] = e_lab
+    k1, v1 = call(lambda: lk.solve(**kw))
+    exp = rec['res']['kind']
+    plain = all(f == 'none' for f in cfg['fault'])
+    if exp in ('ValueError', 'KeyError'):
+        fresh_l, fresh_m, _ = mk()
+        # (a label that resolves to several positions: BaseLinker.solve has no label validation of its own and lets a
+        #  TypeError out of iter_periods - C05 quantifies over models, so only "nothing changed" is demanded there)
+        if k1 != exp and MULTI not in (cfg['start'], cfg['end']):
+            diffs.append(f'linker-solve-early-res:{k1}')
+        if same_state(state(sub), state(fresh_m)) is not None or same_state(state(lk), state(fresh_l)) is not None:
+            diffs.append('linker-solve-early-changed-state')
+        return diffs
+    tl, tm, _ = mk()
+    kw_t = opts_of(cfg)
+    flags, k2 = [], 'returned'
+    for p in rec['range']:
+        kk, vv = call(lambda: tl.solve_t(p - 1, **kw_t))
+        if kk != 'returned':
+            k2 = kk
+            break
+        flags.append(vv)
+    if k1 != k2:
+        diffs.append(f'linker-solve-twin-res:{k1}-vs-{k2}')
+    elif k1 == 'returned':
+        labels, indexes, solved = v1
+        want = [p for p in rec['range']]
+        if list(solved) != flags:
+            diffs.append('linker-solve-twin-flags')
+        if [int(i) for i in indexes] != [p - 1 for p in want] or len(labels) != len(want) or any(not (a == span[p - 1]) for a, p in zip(labels, want)):
+            diffs.append('linker-solve-triple')
+    if plain and cfg['max'] >= 1 and k1 == 'returned' and exp == 'returned':
+        # without faults the linker wrapping one model visits and stamps what the specification says for the model
+        st = [str(x) for x in sub.status]
+        if any(st[p] != rec['per'][p]['st'] for p in range(L)):
+            diffs.append('linker-solve-per-status')
+    for a, b, what in ((sub, tm, 'submodel'), (lk, tl, 'linker')):
+        bad = same_state(state(a), state(b))
+        if bad is not None:
+            diffs.append(f'linker-solve-twin-state:{what}:{bad}')
+    return diffs
+
+
 EXTRA_OPTIONS = [dict(offset=-1), dict(offset=1, tol=2.0), dict(catch_first_error=False, tol=1e-10), dict(offset=-1, catch_first_error=False)]
 
 
@@ -380,6 +448,10 @@ def main():
                 if d3:
                     diffs = diffs + d3
                     obs = dict(obs or {}, extra_options=extra)
+            if (idx + len(kind)) % 5 == 2:
+                d5 = run_linker_twin(rec, kind)
+                out['n'] += 1
+                diffs = diffs + d5
             cfg = rec['cfg']
             tk = (kind, cfg['L'], cfg['lags'], cfg['leads'], cfg['min'], cfg['max'], cfg['errors'], cfg['failures'], json.dumps(cfg['fault']))
             if tk not in seen_twin and cfg['min'] <= cfg['max']:
